@@ -85,7 +85,7 @@ Next ==
        [] e.e = "Crash" -> /\ Step({"NoCrash"}, e, hst) /\ UNCHANGED <<fidx, scn>>
        [] e.e = "Hang"  -> /\ Step({"CallsTerminate"}, e, hst) /\ UNCHANGED <<fidx, scn>>
        [] e.e = "Exit"  -> /\ Step({"LibraryNeverExits"}, e, hst) /\ UNCHANGED <<fidx, scn>>
-       [] e.e \in {"CbRead","CbSeek","CbTell","CbClose","LinkFail","Note"} ->
+       [] e.e \in {"CbRead","CbSeek","CbTell","CbClose","LinkFail","Note","Pages"} ->
             /\ l' = l + 1 /\ UNCHANGED <<hst, fidx, scn, nviol>>
        [] OTHER -> /\ Step({"UnknownEvent"}, e, hst) /\ UNCHANGED <<fidx, scn>>
 
